@@ -77,7 +77,8 @@ fn gen_tgt(rng: &mut Rng, len: usize) -> V {
 pub fn gen(rng: &mut Rng, thorough: bool, emit: &mut dyn FnMut(String)) {
     // (1) exhaustive: every predecessor vector of length <= L (entries none | in range),
     //     every start, every equality target (incl. one absent id) + `prednone`.
-    let max_len = if thorough { 5 } else { 4 };
+    //     (6^5 + ... vectors: 5 is cheap enough for both tiers, DESIGN.md §6 C19)
+    let max_len = 5;
     for len in 1usize..=max_len {
         let base = len + 1; // none + len ids
         let total = base.pow(len as u32);
@@ -99,9 +100,9 @@ pub fn gen(rng: &mut Rng, thorough: bool, emit: &mut dyn FnMut(String)) {
         }
     }
     // (2) random longer vectors: chains, rho-shapes, cycles, self references
-    let n_random = if thorough { 20_000 } else { 1_500 };
+    let n_random = if thorough { 60_000 } else { 16_000 };
     for _ in 0..n_random {
-        let len = 1 + rng.below(60);
+        let len = if rng.chance(1, 3) { 6 + rng.below(4) } else { 1 + rng.below(60) };
         let shape = rng.below(4);
         let mut pred: Vec<Option<usize>> = (0..len)
             .map(|i| match shape {
